@@ -27,6 +27,10 @@ TRUSTED = [
     'a never-instantiated subclass; every stored value is converted to double and printed in the point type\'s format, so '
     'field order, padding and widening do not change the dump while a narrowed or quantised bound does',
     'the oracle recomputes squared distances in exact integer arithmetic on the binary values of the inputs',
+    'tools/cxx2lean.py (clang-14 AST -> Lean) translates KNNResultSet and L2_Adaptor::accum_dist / operator() from nanoflann.hpp on '
+    'every run: raw pointers are read as lists owned by the state (the aliasing with the caller\'s arrays is a contract, not '
+    'represented), size_t as unbounded integers (the subtractions occur only under the guards that keep them non-negative); '
+    'searchLevel, the tree build and the KdTree.cpp wrappers are NOT translated (tied by the tree dump / result correspondence only)',
 ]
 ASSUMPTIONS = [
     'theorems are over linearly ordered commutative rings (exact arithmetic, no overflow: every squared distance is below '
